@@ -898,6 +898,36 @@ pub fn run(ctx: &mut Ctx) {
     m.ctx.sample("F8: JR/JP/CALL (conditional and not) with the opcode at 0x7FFE/0x7FFF of the switchable bank and the operand bytes in video RAM");
   }
 
+  // ---- F9: blocks as long as a bank: N x one one-byte instruction + a terminator from 0x4000,
+  // with and without cycles carried in (PUSH BC from SP=0xFFFE: 4 machine cycles per byte,
+  // 65533 for the longest block, 65538 with the 5 cycles of a dispatch carried in)
+  {
+    let fills: [u8; 5] = [0xc5, 0x7e, 0x34, 0x3c, 0x00];
+    let lengths: [usize; 6] = [4000, 12000, 15359, 15360, 15361, 16383];
+    for (fi, &fill) in fills.iter().enumerate() {
+      if let Some(u) = my_unit!() {
+        let mut n = 0;
+        for &len in lengths.iter() {
+          for &term in [0xe9u8, 0xc9].iter() {
+            let mut block = vec![fill; len];
+            block.push(term);
+            if m.prepare(0x4000, &block) {
+              for &cyc in [0u32, 5].iter() {
+                let r = [0x1200, 0x0000, 0xc228, 0xc230, 0xfffe, 0x4000, cyc];
+                let name = format!("{}x{:02X}+{:02X}", len, fill, term);
+                m.run_named(&r, &name, &[fill], &[u, fill as u64, len as u64, term as u64]);
+                n += 1;
+              }
+            }
+          }
+        }
+        m.ctx.distinct_key(hash_words(&[119, fi as u64]));
+        m.ctx.count("cases:F9-bank-long-blocks", n);
+      }
+    }
+    m.ctx.sample("F9: 4000..16383 x PUSH BC / LD A,(HL) / INC (HL) / INC A / NOP closed by JP (HL) or RET, from 0x4000, entry cycles 0 and 5 (up to 65538 machine cycles in one block)");
+  }
+
   // ---- F6: random straight-line blocks of 1..64 instructions
   let nblocks: u64 = if sample_mode { 300 } else if thorough { 60_000 } else { 4_000 };
   let units = 64u64;
